@@ -62,6 +62,8 @@ struct Case {
     /// Some(label) for warnings, None for errors
     warning: Option<&'static str>,
     slot: (usize, usize, usize),
+    /// target shell the case is compiled for
+    target: &'static str,
 }
 
 struct Doc {
@@ -103,7 +105,7 @@ fn cases(f: &mut dyn FnMut(Case)) {
         for (hi, head) in HEAD.iter().enumerate() {
             for (si, sep) in SEP.iter().enumerate() {
                 let slot = (pi, hi, si);
-                let mk = |kind: &'static str, d: Doc, ordered: bool, warning: Option<&'static str>| Case { kind, text: d.s, expect: d.marks, ordered, warning, slot };
+                let mk = |kind: &'static str, d: Doc, ordered: bool, warning: Option<&'static str>| Case { kind, text: d.s, expect: d.marks, ordered, warning, slot, target: "bash" };
                 // K1 undefined nonterminal
                 {
                     let mut d = Doc::new();
@@ -218,7 +220,7 @@ fn cases(f: &mut dyn FnMut(Case)) {
         }
     }
     // shapes of the spaces-inside-a-word diagnostic (not multiplied by the slot menus)
-    let mk = |kind: &'static str, d: Doc, ordered: bool| Case { kind, text: d.s, expect: d.marks, ordered, warning: None, slot: (0, 0, 0) };
+    let mk = |kind: &'static str, d: Doc, ordered: bool| Case { kind, text: d.s, expect: d.marks, ordered, warning: None, slot: (0, 0, 0), target: "bash" };
     for mid in ["<X>", "{{{ c }}}"] {
         // the literal next to `v` is the last one of a group that ends in a group
         let mut d = Doc::new();
@@ -237,6 +239,36 @@ fn cases(f: &mut dyn FnMut(Case)) {
         d.p("<A>;\n<A> = (<Z>").mark("reference", "<B>").p(")").mark("right", "v").p(";\n<B> = p<X>").mark("left", "q").p(";\n");
         d.marks.push(Expect { role: "reference", offset: ref_off, len: 3 });
         f(mk("subword-spaces-nested", d, false));
+    }
+    // two (three) warnings of one kind in one file: each with its own location and source line
+    for (kind, label, a, b, c3) in [
+        ("undefined", "Undefined", ("cmd ", "<U1>", " x\n  "), ("", "<U2>", " y\n  "), ("", "<U3>", ";\n")),
+        ("unused", "Unused", ("cmd a;\n", "<X>", " = b;\n# note\n"), ("", "<Y>", " = c;\n\n"), ("  ", "<Z>", " = d;\n")),
+        ("unused-specialization", "Unused specialization", ("cmd a;\n", "<X@bash>", " = {{{ b }}};\n"), ("\n", "<Y@bash>", " = {{{ c }}};\n"), ("# c\n", "<Z@bash>", " = {{{ d }}};\n")),
+    ] {
+        let mut d = Doc::new();
+        for (pre, tok, post) in [a, b, c3] {
+            d.p(pre).mark(kind, tok).p(post);
+        }
+        f(Case { kind, text: d.s, expect: d.marks, ordered: true, warning: Some(label), slot: (0, 0, 0), target: "bash" });
+    }
+    // shell-specific definitions for every target: unused, and defined twice
+    for target in ["bash", "fish", "zsh", "pwsh"] {
+        let spec: &'static str = match target {
+            "bash" => "<X@bash>",
+            "fish" => "<X@fish>",
+            "zsh" => "<X@zsh>",
+            _ => "<X@pwsh>",
+        };
+        let mut d = Doc::new();
+        d.p("cmd a;\n  ").mark("unused-spec", spec).p(" = {{{ c }}};\n");
+        f(Case { kind: "unused-specialization", text: d.s, expect: d.marks, ordered: true, warning: Some("Unused specialization"), slot: (0, 0, 0), target });
+        let mut d = Doc::new();
+        d.p("cmd <X>;\n");
+        let first_off = d.s.len();
+        d.p(spec).p(" = {{{ one }}};\n  ").mark("duplicate", spec).p(" = {{{ two }}};\n");
+        d.marks.push(Expect { role: "previous", offset: first_off, len: spec.len() });
+        f(Case { kind: "duplicate-specialization", text: d.s, expect: d.marks, ordered: true, warning: None, slot: (0, 0, 0), target });
     }
     for other in ["{{{ c }}}", "lit", "x | y"] {
         // an unrelated reference earlier in the call must not show up among the locations
@@ -338,7 +370,8 @@ fn compare(case: &Case, got: &[(usize, usize, Option<usize>)]) -> Result<(), Str
 }
 
 fn lib_locations(case: &Case) -> Result<Vec<(usize, usize, Option<usize>)>, String> {
-    match pipe::compile(&case.text, Shell::Bash) {
+    let shell = pipe::SHELLS.iter().find(|(_, n)| *n == case.target).map(|(s, _)| *s).unwrap_or(Shell::Bash);
+    match pipe::compile(&case.text, shell) {
         Outcome::Ok(c) => match case.warning {
             Some(w) => {
                 let list = match w {
@@ -449,7 +482,7 @@ pub fn run(tier: Tier) -> Report {
             let path = st.0.path("g.usage");
             std::fs::write(&path, &c.text).unwrap();
             let p = path.to_string_lossy().to_string();
-            let inv = Invocation::new(vec!["--bash".into(), "/dev/null".into(), p.clone()]);
+            let inv = Invocation::new(vec![format!("--{}", c.target), "/dev/null".into(), p.clone()]);
             let r = binrun::run(&inv, &st.0);
             let stderr = String::from_utf8_lossy(&r.stderr).to_string();
             let detail = |why: &str| J::obj(vec![("kind", J::s(c.kind)), ("text", J::s(&c.text)), ("why", J::s(why)), ("stderr", J::s(stderr.chars().take(1500).collect::<String>())), ("outcome", J::s(r.describe())), ("level", J::s("binary (stderr)"))]);
